@@ -343,6 +343,13 @@ def clauses_dgms(case, status, tgt, oth):
                 eps = TOL * S
                 if not (xlo - eps <= q[0] <= xhi + eps and ylo - eps <= q[1] <= yhi + eps):
                     bad.append("finite point %r drawn at %r outside the limits %r %r" % (p, q, tgt["xlim"], tgt["ylim"]))
+            elif case["xy_range"] is None and math.isinf(p[1]):
+                # "infinite deaths placed on a horizontal infinity line drawn inside the axes": the point itself has to
+                # be inside them, so its birth lies within the x limits (its height is the line's, judged above)
+                eps = TOL * S
+                if not (xlo - eps <= q[0] <= xhi + eps and ylo - eps <= q[1] <= yhi + eps):
+                    bad.append("point of infinite death %r drawn at %r outside the limits %r %r"
+                               % (p, q, tgt["xlim"], tgt["ylim"]))
         if labs is not None and sc["label"] != labs[k]:
             bad.append("scatter %d is labelled %r, requested %r" % (k, sc["label"], labs[k]))
     if case["xy_range"] is not None:
